@@ -118,6 +118,8 @@ pub fn msg(max_body: u32) -> BoxedStrategy<Msg> {
         2 => 64u32..4096.min(max_body.max(65)),
         1 => (4096u32.min(max_body))..=max_body,
         1 => Just(0u32),
+        // now and then a body beyond 1 MiB (paths that treat large bodies differently), where the part allows it
+        1 => if max_body >= 128 * 1024 { prop_oneof![5 => Just(0u32), 1 => 1_048_576u32..1_200_000].boxed() } else { Just(0u32).boxed() },
     ];
     (
         any::<bool>(),
@@ -397,7 +399,7 @@ impl Part for RoundTrip {
     type Case = Msg;
     fn name(&self) -> &'static str { "roundtrip" }
     fn rule(&self) -> &'static str {
-        "generated requests/responses (any String route, 0-16 headers of arbitrary unicode, body 0-128KiB, extensions set): impl-encode->layout check by hand-written decoder->impl-decode, ref-encode with shuffled header order->impl-decode, and (2 of 3 cases) the same bytes delivered through a stream that hands them out in 2-5 generated pieces or byte by byte (cuts inside the preamble and the length prefixes included); non-trivial = >=1 header and non-empty body; distinct by full message"
+        "generated requests/responses (any String route, 0-16 headers of arbitrary unicode, body 0-128KiB and occasionally 1-1.2 MiB, extensions set): impl-encode->layout check by hand-written decoder->impl-decode, ref-encode with shuffled header order->impl-decode, and (2 of 3 cases) the same bytes delivered through a stream that hands them out in 2-5 generated pieces or byte by byte (cuts inside the preamble and the length prefixes included); non-trivial = >=1 header and non-empty body; distinct by full message"
     }
     fn strategy(&self, _t: Tier) -> BoxedStrategy<Msg> { msg(128 * 1024) }
     fn run(&self, m: &Msg, obs: &mut Obs) -> Result<(), Fail> { check_roundtrip(m, obs) }
